@@ -261,8 +261,10 @@ class Executor:
             ch = self.prefix[k][0]
             self.trace.append([ch, n, tag])
             return ch
-        self.trace.append([0, n, tag])
-        return 0
+        rnd = self.env.get('random')
+        ch = rnd.randrange(n) if rnd is not None else 0
+        self.trace.append([ch, n, tag])
+        return ch
 
     def branch(self, cond, tag=''):
         """Fork on a (possibly symbolic) boolean; returns the python bool taken on this path."""
@@ -284,10 +286,12 @@ class Executor:
         else:
             # the path condition is satisfiable (invariant), so the other side must be feasible
             opts.append(False)
-        self.trace.append([0, len(opts), tag, opts])
+        rnd = self.env.get('random')
+        pick = rnd.randrange(len(opts)) if rnd is not None else 0
+        self.trace.append([pick, len(opts), tag, opts])
         if len(self.trace) > self.max_decisions:
             raise BoundExceeded('more than %d decisions on one path' % self.max_decisions)
-        val = opts[0]
+        val = opts[pick]
         if len(opts) > 1:
             self.solver.add(cond if val else z3.Not(cond))
         return val
